@@ -128,6 +128,32 @@ def check_sc(ctx, tag, vol):
         ctx.validate("k_sc_" + tag, [[x] for x in C.boundary_values(frm.bits)[:16]])
 
 
+SCF = {"f_i32": (32, 4), "f_u32": (32, 4), "d_i64": (64, 8), "d_u64": (64, 8), "f_u64": (64, 8), "d_i32": (32, 4), "f_d": (64, 8)}
+
+
+def check_scf(ctx, tag, vol):
+    from specs.C16 import cross
+    bits, gb = SCF[tag]
+    if vol:
+        base = ctx.sandbox_base(32)
+        cell = ctx.sym("cell", 64)
+        ctx.assume(z3.UGE(cell, base), z3.ULE(cell - base, BV((1 << 32) - 8, 64)))
+        mem0 = ctx.eng.initial_memory()
+        v = z3.Concat(*[z3.Select(mem0, cell + BV(i, 64)) for i in reversed(range(gb))])
+        kp = ctx.run("k_scftv_" + tag, [base, cell])
+    else:
+        v = ctx.sym("v", bits)
+        kp = ctx.run("k_scf_" + tag, [v])
+    rp = ctx.run("r_scf_" + tag, [v])
+    cross(ctx, kp, rp, "sandbox_static_cast to a floating-point type yields exactly static_cast<To>(value), rounding included",
+          lambda p, q: (p.ret == q.ret) if (p.status == "ret" and q.status == "ret") else z3.BoolVal(False))
+    ctx.expect(kp, ret=1)
+    if not vol:
+        vals = [0, 1, (1 << 24) + 1, (1 << bits) - 1, (1 << (bits - 1)) - 1, (1 << (bits - 1)), (1 << (bits - 1)) - 64] + ([(1 << 53) + 1, (1 << 63) - 512] if bits == 64 else [])
+        ctx.validate("k_scf_" + tag, [[x & ((1 << bits) - 1)] for x in vals])
+        ctx.validate("r_scf_" + tag, [[x & ((1 << bits) - 1)] for x in vals])
+
+
 def check_enum(ctx, k):
     v = ctx.sym("v", 32)
     paths = ctx.run(k, [v])
@@ -157,6 +183,34 @@ def check_cb_fp(ctx):
         else:
             ctx.fail(q, "callback with floating-point wrappers did not run normally (%s: %s)" % (q.status, q.info))
     ctx.expect(paths, ret=2)
+
+
+def check_cb_struct(ctx):
+    ctx.eng.max_strlen = 64
+    opq = ctx.sym("opaque", 32)
+    big = ctx.sym("big", 32)
+    a = ctx.sym("a", 32)
+    b = ctx.sym("b", 32)
+    ctx.assume(z3.ULE(opq, 1), z3.ULE(big, 1))
+    paths = ctx.run("k_cb_opaque_struct", [opq, big, a, b])
+    for q in paths:
+        if q.status != "ret":
+            ctx.fail(q, "a callback taking and returning a struct by value did not run normally (%s: %s)" % (q.status, q.info))
+            continue
+        r, m = ctx.eng.check_sat(q.pc)
+        isbig = mval(m, big) == 1
+        lg = [e for e in (q.user.get("log") or []) if e[0] == 20]
+        env = [v for (t, v) in (q.user.get("env") or []) if t == 21]
+        bvx = lambda v: v if not isinstance(v, int) else BV(v, 64)
+        if not (len(lg) == 1 and len(env) == 1):
+            ctx.fail(q, "the struct callback ran %d times" % len(lg))
+            continue
+        want = (z3.Extract(55, 0, env[0]) == z3.Extract(55, 0, q.ret)) if isbig else (q.ret == z3.Concat(a, z3.Extract(31, 0, env[0])))
+        if isbig:
+            want = z3.And(z3.Extract(63, 56, q.ret) ^ z3.Extract(63, 56, env[0]) == 7, want)
+        ctx.require(q, z3.And(bvx(lg[0][1]) == sext(a, 64), bvx(lg[0][2]) == sext(b, 64), want),
+                    "a callback declared with an opaque struct parameter/result receives and returns exactly the fields the tainted-typed callback does")
+    ctx.expect(paths, ret=4)
 
 
 def check_bm_after_dead_cast(ctx):
@@ -193,12 +247,15 @@ def jobs(tier, seed):
     # host-width, non-identity pointer representation: casts of sandbox-resident pointers must still translate them
     src64 = '#include "verif_sandbox.hpp"\nusing S = B64M;\n#include "C20_kernels.inc"\n'
     out.append(Job("C20_B64M_casts", src64, [dict(name="B64M cast " + k, fn=check_ptrcast, kw=dict(k=k, pb=8)) for k in ("k_rc_t", "k_rc_tv", "k_cc_t", "k_cc_tv", "k_sc_ptr_t", "k_sc_ptr_tv")], native=False))
-    out.append(Job("C20_noop_cb_fp", '#include "C20_noop.inc"\n', [dict(name="noop callback with opaque double/int/float", fn=check_cb_fp, unwind=300)], flags=["-D_GLIBCXX_EXTERN_TEMPLATE=0"]))
+    out.append(Job("C20_noop_cb_fp", '#include "C20_noop.inc"\n', [dict(name="noop callback with opaque double/int/float", fn=check_cb_fp, unwind=300),
+                                                                     dict(name="noop callback with opaque structs by value", fn=check_cb_struct, unwind=300)], flags=["-D_GLIBCXX_EXTERN_TEMPLATE=0"]))
     from specs import C03
     out.append(Job("C20_BM_after_dead_cast", '#include "C04_bm.inc"\n', [dict(name="BM casts of a sandbox-resident pointer after another sandbox was destroyed", fn=check_bm_after_dead_cast)],
                    unwind=200, native=False))
     for k in ("k_bm_cast_fnptrptr", "k_bm_scast_fnptrptr"):
         out.append(Job("C20_BM_" + k, '#include "C03_bm.inc"\n', [dict(name="BM cast of a sandbox-resident pointer to a function pointer " + k, fn=C03.check_bm_cell, kw=dict(k=k))], native=False))
+    out.append(Job("C20_sc_float", src + '#include "C20_float.inc"\n',
+                   [dict(name="static_cast to floating point %s %s" % (t, "tv" if vol else "t"), fn=check_scf, kw=dict(tag=t, vol=vol)) for t in SCF for vol in (False, True) if not (vol and t == "f_d")]))
     for to in SC_TYPES:
         tags = ["%s_%s" % (to.tag, f.tag) for f in SC_TYPES]
         ssrc = src + "".join("SC(%s, %s, %s)\n" % (t, SC[t][0].cxx, SC[t][1].cxx) for t in tags)
